@@ -142,7 +142,7 @@ func (s *Sorts) Zero(t types.Type) string {
 		}
 		return app("mk_"+info.sortName, args...)
 	case *types.Array:
-		return fmt.Sprintf("((as const %s) %s)", s.SortOf(t), s.Zero(u.Elem()))
+		return s.ZeroArr(u.Elem())
 	}
 	return "0"
 }
@@ -245,6 +245,15 @@ func (s *Sorts) TypeInv(t types.Type, v string, alloc string) string {
 		return and(cs...)
 	}
 	return "true"
+}
+
+// ZeroArr: an array whose every element is the zero value of t (a declared constant with a
+// defining axiom: cvc5 accepts `as const` only for literal values).
+func (s *Sorts) ZeroArr(t types.Type) string {
+	es := s.SortOf(t)
+	name := "zeroarr_" + sanitize(es)
+	s.sc.Header("zeroarr:"+name, fmt.Sprintf("(declare-const %s (Array Int %s))\n(assert (forall ((i Int)) (! (= (select %s i) %s) :pattern ((select %s i)))))", name, es, name, s.Zero(t), name))
+	return name
 }
 
 // Box / unbox for interface values.
